@@ -56,9 +56,20 @@ func (d *Decoder) Decode(bits *gozxing.BitMatrix) (*common.DecoderResult, error)
 	// success if version is valid (always success here)
 	codewords, _ := parser.readCodewords()
 
+	result, e := d.decodeCodewords(codewords, version, true)
+	if _, isChecksum := e.(gozxing.ChecksumException); isChecksum && version.getVersionNumber() == 24 {
+		// 144x144: try the other interleaving of the error correction codewords
+		if result2, e2 := d.decodeCodewords(codewords, version, false); e2 == nil {
+			return result2, nil
+		}
+	}
+	return result, e
+}
+
+func (d *Decoder) decodeCodewords(codewords []byte, version *Version, rotated bool) (*common.DecoderResult, error) {
 	// Separate into data blocks
 	// success if version is valid (always success here)
-	dataBlocks, _ := DataBlocks_getDataBlocks(codewords, version)
+	dataBlocks, _ := getDataBlocks(codewords, version, rotated)
 
 	// Count total number of data bytes
 	totalBytes := 0
